@@ -55,9 +55,53 @@ func (v *FnVC) ghostAtCall(site, when string, pnames []string, args []Term) {
 	}
 	if when == "before" {
 		v.runAnchored("call "+site, token.NoPos, extra)
+		v.ghostSetsAt("call "+site, extra)
 	} else {
 		v.runAnchored("after "+site, token.NoPos, extra)
+		v.ghostSetsAt("after "+site, extra)
 	}
+}
+
+// ghostSetsAt executes ghost assignments anchored at a call site ("ghost-set call NAME#k : g[i] = e").
+func (v *FnVC) ghostSetsAt(anchor string, extra map[string]Term) {
+	for _, gs := range v.fc.GhostSets {
+		if gs[0] != anchor {
+			continue
+		}
+		env := v.newEnvAt(v.st, token.NoPos)
+		for k, t := range extra {
+			env.vars[k] = t
+		}
+		v.ghostAssign(gs[1], gs[2], env)
+	}
+}
+
+// ghostAssign performs `lhs = rhs` on a ghost variable; lhs is NAME or NAME[index].
+func (v *FnVC) ghostAssign(lhs, rhs string, env *Env) {
+	name, idx := lhs, ""
+	if k := strings.Index(lhs, "["); k > 0 && strings.HasSuffix(lhs, "]") {
+		name, idx = strings.TrimSpace(lhs[:k]), lhs[k+1:len(lhs)-1]
+	}
+	g, ok := v.w.cs.Ghosts[name]
+	if !ok {
+		panic(specError{"ghost-set: unknown ghost variable " + name})
+	}
+	e, err := ParseExpr(rhs)
+	if err != nil {
+		panic(specError{"ghost-set: " + err.Error()})
+	}
+	t := v.specTerm(e, env, nil)
+	key := v.w.ghostKey(g)
+	if idx == "" {
+		v.set(key, v.heapSort(key), t.S)
+		return
+	}
+	ie, err := ParseExpr(idx)
+	if err != nil {
+		panic(specError{"ghost-set: " + err.Error()})
+	}
+	it := v.specTerm(ie, env, nil)
+	v.set(key, v.heapSort(key), "(store "+v.get(key)+" "+it.S+" "+t.S+")")
 }
 
 func (v *FnVC) ghostAtStore(x *ssa.Store, p *Place) {
